@@ -142,7 +142,13 @@ def run_property(prop: str, tier: str = 'quick', seed: int = 0, only=None, jobs:
     t_start = time.time()
     REG = load_contracts()
     from pyvc import verify
-    contracts = [ci for ci in REG.values() if prop in ci.props and (only is None or ci.name in only) and not ci.assumed and not ci.bounded]
+    def selected(ci):
+        if prop in ci.props:
+            return True
+        # C14 (purity of the read-only API): every function contract that declares `modifies = ()` carries frame obligations on
+        # each of its heap writes; they are all part of C14
+        return prop == 'C14' and ci.kind == 'function' and getattr(ci.pycls, 'modifies', None) == () and not ci.assumed and not ci.bounded
+    contracts = [ci for ci in REG.values() if selected(ci) and (only is None or ci.name in only) and not ci.assumed and not ci.bounded]
     bounded_cis = [ci for ci in REG.values() if prop in ci.props and (only is None or ci.name in only) and ci.bounded]
     assumed = [ci for ci in REG.values() if prop in ci.props and ci.assumed]
     known = [k for k in load_known() if k.get('property') == prop and k.get('status') == 'known']
